@@ -114,7 +114,7 @@ def pureAt (t : Nat) (p : Program) : Bool :=
   | none => false
 
 /-- `hoist_check <target id> <name> <astx before> <astx after>`:
-`OK (hoist <IsLetHoist> <Pure e> <nodes with that id> <name fresh>)`. -/
+`OK (extract <schema> <Pure e> <nodes with that id> <name fresh> <side conditions of the soundness theorem> (params …))`. -/
 def handleHoist (rest : String) (isFun : Bool) : String :=
   match rest.splitOn " " with
   | target :: name :: sexpParts =>
@@ -130,7 +130,8 @@ def handleHoist (rest : String) (isFun : Bool) : String :=
           let ps := match pb.prog.funs.find? (fun d => d.name == name) with
             | some d => String.join (d.params.map fun x => " " ++ x)
             | none => ""
-          s!"OK (extract {b01 chk} {b01 (pureAt t p)} {hitsProg t p} {b01 (freshProg name p)} (params{ps}))"
+          let safe := if isFun then funSafe p pb.prog t name else hoistSafe t name p
+          s!"OK (extract {b01 chk} {b01 (pureAt t p)} {hitsProg t p} {b01 (freshProg name p)} {b01 safe} (params{ps}))"
         | _, _ => "OK (extract unsupported)"
       | _, _ => "ERR bad-astx"
     | _, _ => "ERR bad-args"
